@@ -8,3 +8,7 @@ class OneOfDoesNotHaveResultError(BaseDagError):
 
 class RecurrentSubgraphDoesNotHaveResultError(BaseDagError):
     pass
+
+
+class SwitchCaseDoesNotHaveBranchError(BaseDagError):
+    pass
